@@ -28,7 +28,9 @@ var c04Queries = []string{
 }
 
 // the last two are names that are only aliases / members of a family (asking for one is not asking for the family)
-var c04Platforms = [][]string{nil, {"linux"}, {"windows"}, {"Linux", "macos"}, {"cross-platform"}, {"powershell"}, {"unix"}}
+var c04Platforms = [][]string{nil, {"linux"}, {"windows"}, {"Linux", "macos"}, {"cross-platform"}, {"powershell"}, {"unix"},
+	// naming every common operating system is not "all platforms" (entries of other systems stay out); a system outside the usual three
+	{"linux", "macos", "windows"}, {"bsd"}}
 
 var c04Hosts = []string{"linux", "darwin", "windows", "freebsd"}
 
@@ -179,6 +181,26 @@ func c04Run(c *lib.Ctx) {
 									c.Fail("harness nondeterminism on %+v", cs)
 								}
 							}
+							if v == nil && en == "SearchUniversal" && o.UseFuzzy && pi < 3 {
+								// the same request with only --no-cross-platform flipped, asked of the same database object
+								// straight afterwards, and the original again: nothing kept from one may serve the other
+								t := cs
+								t.Opts.NoCrossPlatform = !o.NoCrossPlatform
+								for _, again := range []sCase{t, cs} {
+									v2, _ := c04Eval(env, again)
+									c.Rep.Evaluations++
+									c.Count("no_cross_platform_toggles", 1)
+									if v2 != nil {
+										tc := again
+										tc.Toggle = true
+										v2.Case = tc
+										v2.Key = "after-toggle:" + v2.Key
+										v2.What = "directly after the same search with --no-cross-platform flipped: " + v2.What
+										v = v2
+										break
+									}
+								}
+							}
 							if v != nil {
 								c.Violate(*v)
 								continue
@@ -292,6 +314,24 @@ func c04Replay(c *lib.Ctx, raw json.RawMessage) []lib.Violation {
 			}
 		}
 	}
+	if cs.Toggle {
+		t := cs
+		t.Toggle = false
+		f := t
+		f.Opts.NoCrossPlatform = !t.Opts.NoCrossPlatform
+		// both orders the exploration can have produced: (this, flipped, this) and (flipped, this)
+		for _, seq := range [][]sCase{{f, t}, {t, f, t}} {
+			db := cs.DB.build(c)
+			e2 := &c04Env{db: db, cdb: database.NewCachedDatabase(db), mdb: database.NewMonitoredDatabase(db), chain: database.NewCachedDatabase(db)}
+			for i, x := range seq {
+				v, _ := c04Eval(e2, x)
+				if v != nil && i == len(seq)-1 {
+					return []lib.Violation{*v}
+				}
+			}
+		}
+		return nil
+	}
 	if v, _ := c04Eval(env, cs); v != nil {
 		return []lib.Violation{*v}
 	}
@@ -301,7 +341,7 @@ func c04Replay(c *lib.Ctx, raw json.RawMessage) []lib.Violation {
 func init() {
 	lib.Register(&lib.Check{
 		ID: "C04", Level: "model_checking",
-		Rule:      "full product of: databases = all subsets of <=2 (quick) / <=3 (thorough) of 22 platform-shaped / pipeline pool entries (an entry with a single redirect and a background & that is NOT a pipeline; none, linux, windows, macos, darwin, PowerShell, unix, bsd, cross-platform in two spellings, two-platform; on whitelisted tools, on a non-tool, on a tool behind a launcher prefix such as sudo / nohup and on a look-alike of a tool name) + the 22-entry database; 20 queries (lexical, NLP-expanded, typo-fallback with no terms and with all postings filtered); AllPlatforms x NoCrossPlatform x PipelineOnly x UseNLP x UseFuzzy x 7 requested-platform lists (none, linux, windows, Linux+macos, cross-platform, and the family members powershell and unix); 4 host OS values (vhost); entry points SearchUniversal and a chained cached wrapper (one cache per database and host, never invalidated, so answers cached under other switch settings are available to be served wrongly; ascending and, on the 22-entry database, descending order of combinations) always, cached (second call) on lexical cases and every 5th other, monitored and SearchWithPipelineOptions on lexical/no-platform cases. Oracle: every returned entry is eligible by the reference predicate, and is a pipeline command under PipelineOnly. Non-trivial = calls with a non-empty answer",
+		Rule:      "full product of: databases = all subsets of <=2 (quick) / <=3 (thorough) of 22 platform-shaped / pipeline pool entries (an entry with a single redirect and a background & that is NOT a pipeline; none, linux, windows, macos, darwin, PowerShell, unix, bsd, cross-platform in two spellings, two-platform; on whitelisted tools, on a non-tool, on a tool behind a launcher prefix such as sudo / nohup and on a look-alike of a tool name) + the 22-entry database; 20 queries (lexical, NLP-expanded, typo-fallback with no terms and with all postings filtered); AllPlatforms x NoCrossPlatform x PipelineOnly x UseNLP x UseFuzzy (each typo-fallback request through SearchUniversal also followed at once, on the same database object, by the same request with only NoCrossPlatform flipped and by itself again) x 9 requested-platform lists (none, linux, windows, Linux+macos, cross-platform, the family members powershell and unix, all of linux+macos+windows, and bsd); 4 host OS values (vhost); entry points SearchUniversal and a chained cached wrapper (one cache per database and host, never invalidated, so answers cached under other switch settings are available to be served wrongly; ascending and, on the 22-entry database, descending order of combinations) always, cached (second call) on lexical cases and every 5th other, monitored and SearchWithPipelineOptions on lexical/no-platform cases. Oracle: every returned entry is eligible by the reference predicate, and is a pipeline command under PipelineOnly. Non-trivial = calls with a non-empty answer",
 		Assume:    []string{"alias pool limited to darwin, powershell, cmd, unix, bash", "the platform filter is demanded of SearchUniversal-based entry points; of the legacy SearchWithPipelineOptions only the pipeline gate is demanded", "map order pinned"},
 		QuickSecs: 150, ThorSecs: 900,
 		Run: c04Run, Replay: c04Replay,
